@@ -262,6 +262,14 @@ def handle(cmd, args):
         tab = [n for _, n in notation_table.table()]
         opts = P.PrettyOptions(notations=frozendict({n.definition: n for n in tab}))
         return 's:' + pp_obj(args[0], tab).pretty(opts)
+    if cmd == 'pretty-gen':
+        # MODE = table | empty | simplify | simplify-empty: the options `Pattern.pretty` is called with
+        from harness.py import notation_table
+        tab = [n for _, n in notation_table.table()]
+        mode = args[0]
+        nots = frozendict({n.definition: n for n in tab}) if mode in ('table', 'simplify') else frozendict({})
+        opts = P.PrettyOptions(simplify_instantiations=mode.startswith('simplify'), notations=nots)
+        return 's:' + pp_obj(args[2], tab).pretty(opts)   # args[1]: the symbol table, for the model only
     if cmd == 'law-pretty-shows':
         # two applications of notation IDX whose argument tuples differ exactly at position i:
         # if they denote different patterns and the two arguments print differently, the applications print differently
